@@ -52,8 +52,7 @@ theorem tie_tdToTc (us ts : Nat) :
   rw [Int.natCast_mul] at h
   have hlit : ((1000000 : Nat) : Int) = (1000000 : Int) := rfl
   rw [hlit] at h
-  rw [h]
-  push_cast
+  rw [h, Int.natCast_add, Int.natCast_add, Int.natCast_mul, Int.natCast_mul, Int.natCast_mul]
   rfl
 
 /-- VOD first/last number = `Segments.firstLastVod` -/
